@@ -747,11 +747,14 @@ class DocTest:
                 got_eval = constants.NOT_EVALED
 
                 # Extract directives and and update runtime state
-                part_directive = part.directives
-                if DEBUG:
-                    print(f'part[{partx}] directives: {part_directive}')
+                part_directive = None
                 try:
                     try:
+                        # The directives of a part may only be extracted
+                        # here (lazily), so a malformed one is found here too
+                        part_directive = part.directives
+                        if DEBUG:
+                            print(f'part[{partx}] directives: {part_directive}')
                         runstate.update(part_directive)
                     except Exception as ex:
                         msg = (
